@@ -186,8 +186,7 @@ theorem index_state_inv (d : Dump) (ts : List Thread) (s : State)
     s.modules = loadedModules d ∧ s.unloaded = unloadedModules d ∧
     s.sys = sysInfo d.platformId d.arch d.sys ∧ s.lsb = d.lsb.map lsbOf ∧
     s.macCrash = macCrashInfo d.macCrash ∧ s.bootArgs = d.bootArgs ∧ s.assertion = none ∧
-    s.certs = [] ∧ s.handles = d.handles ∧
-    (d.bigEndian && walksMemory d (ts.map (stackOf d))) = false := by
+    s.certs = [] ∧ s.handles = d.handles := by
   unfold index at h
   rw [hth] at h
   simp only at h
@@ -196,14 +195,11 @@ theorem index_state_inv (d : Dump) (ts : List Thread) (s : State)
   · rw [loop_stacks] at h
     split at h
     · cases h
-    · rename_i hbe
-      split at h
-      · cases h
-      · rename_i ss hss
-        cases h
-        refine ⟨hss, rfl, ?_, rfl, rfl, rfl, rfl, rfl, rfl, rfl, rfl, rfl, rfl, rfl, rfl, by simpa using hbe⟩
-        cases d.exc with
-        | none => rfl
-        | some p => obtain ⟨e, c⟩ := p; rfl
+    · rename_i ss hss
+      cases h
+      refine ⟨hss, rfl, ?_, rfl, rfl, rfl, rfl, rfl, rfl, rfl, rfl, rfl, rfl, rfl, rfl⟩
+      cases d.exc with
+      | none => rfl
+      | some p => obtain ⟨e, c⟩ := p; rfl
 
 end MdModel.Index
